@@ -220,6 +220,9 @@ func vDrainWireUntil(c *vCase, tag, body string) ([]vWireMsg, bool) {
 			out = append(out, m)
 		case <-t.C:
 			c.Inconclusive("slow:c16", "fence %s did not arrive on the SUB socket within 60 s", tag)
+			vRestartAfterCase = true
+			vSE.ok = false // the record of the wire is no longer a complete linearisation: later cases of this process cannot be judged
+			vSE.err = fmt.Errorf("a fence message was lost or late; the wire record is incomplete")
 			return out, false
 		}
 	}
@@ -259,8 +262,8 @@ func vRunReplay(c *vCase) {
 	}
 	wg.Wait()
 	e.fenceNo++
-	fa := fmt.Sprintf("FENCEA%d_%d", os.Getpid(), e.fenceNo)
-	fb := fmt.Sprintf("FENCEB%d_%d", os.Getpid(), e.fenceNo)
+	fa := fmt.Sprintf("FENCEA%d", os.Getpid()) // constant topics, unique bodies: the set of topics does not grow with the cases
+	fb := fmt.Sprintf("FENCEB%d", os.Getpid())
 	clientMessageChan <- ClientUpdate{fa, e.fenceNo}
 	clientMessageChan <- ClientUpdate{"SENDALL", 0}
 	clientMessageChan <- ClientUpdate{fb, e.fenceNo}
@@ -280,7 +283,7 @@ func vRunReplay(c *vCase) {
 	if !ok {
 		return
 	}
-	e.last[fb] = body
+	defer func() { e.last[fb] = body }() // FENCE_B was published after the replay: it counts from the next replay on
 	seen := map[string]int{}
 	for _, m := range replay {
 		seen[m.tag]++
@@ -296,9 +299,6 @@ func vRunReplay(c *vCase) {
 		c.Cov("replayed_messages", 1)
 	}
 	for tag := range e.last {
-		if tag == fb {
-			continue
-		}
 		if seen[tag] != 1 {
 			c.Violate("c16:replay-count", "topic %q was published in this run (last value %s) but appears %d times in the reply to SENDALL (%d topics replayed, %d known)", tag, vTrim(e.last[tag], 200), seen[tag], len(seen), len(e.last)-1)
 			return
@@ -508,7 +508,7 @@ func vRunPersist(c *vCase) {
 	// fence so that everything has been taken by the updater; then wait for the next save to complete
 	e.fenceNo++
 	s0 := atomic.LoadInt64(&e.saves)
-	fa := fmt.Sprintf("FENCEP%d_%d", os.Getpid(), e.fenceNo)
+	fa := fmt.Sprintf("FENCEP%d", os.Getpid())
 	fbody := fmt.Sprint(e.fenceNo)
 	if len(want) > 0 && vChance(r, 0.5) {
 		// the history ends with fresh traffic on a topic that is published but never saved: the save that the
